@@ -22,17 +22,17 @@ type Item struct {
 }
 
 type Rec struct {
-	Tok      string
-	Enters   int
-	Exits    int
-	Ctx      context.Context
+	Tok          string
+	Enters       int
+	Exits        int
+	Ctx          context.Context
 	CtxErrAtExit error
-	Method   string
-	Note     string // free-form observation recorded by the handler (e.g. outcome of a reverse call)
-	Sent     int64 // stream values handed to the channel
-	Closed   bool  // stream channel closed by handler
-	entered  chan struct{}
-	exited   chan struct{}
+	Method       string
+	Note         string // free-form observation recorded by the handler (e.g. outcome of a reverse call)
+	Sent         int64  // stream values handed to the channel
+	Closed       bool   // stream channel closed by handler
+	entered      chan struct{}
+	exited       chan struct{}
 }
 
 type Svc struct {
@@ -172,7 +172,7 @@ func wait(ctx context.Context, g chan struct{}) {
 
 // ---- RPC methods -----------------------------------------------------------
 
-func Reply(tok string) string { return "R:" + tok }
+func Reply(tok string) string   { return "R:" + tok }
 func ErrText(tok string) string { return "E:" + tok + ":handler-made" }
 
 func (s *Svc) Echo(ctx context.Context, tok string, pad string) (string, error) {
@@ -222,6 +222,18 @@ func (s *Svc) Note(ctx context.Context, tok string) error {
 func (s *Svc) Boom(ctx context.Context, tok string, kind int) (string, error) {
 	r, _ := s.enter(ctx, "Boom", tok)
 	defer s.exit(ctx, r)
+	DoPanic(kind, tok)
+	return Reply(tok), nil
+}
+
+// BoomAfterCancel panics only once its context has been cancelled (the caller is still waiting).
+func (s *Svc) BoomAfterCancel(ctx context.Context, tok string, kind int) (string, error) {
+	r, _ := s.enter(ctx, "BoomAfterCancel", tok)
+	defer s.exit(ctx, r)
+	select {
+	case <-ctx.Done():
+	case <-time.After(5 * time.Second):
+	}
 	DoPanic(kind, tok)
 	return Reply(tok), nil
 }
@@ -280,12 +292,12 @@ func DoPanic(kind int, tok string) {
 
 // Stream modes.
 const (
-	SPrefilled = 0 // buffered channel filled and closed before the call returns
-	SGoroutine = 1 // unbuffered, producer goroutine started before return
-	SBursty    = 2
-	SSlow      = 3
-	SUntilCtx  = 4 // sends n values, then waits for ctx.Done, then closes
-	SInfinite  = 5 // sends until ctx done
+	SPrefilled  = 0 // buffered channel filled and closed before the call returns
+	SGoroutine  = 1 // unbuffered, producer goroutine started before return
+	SBursty     = 2
+	SSlow       = 3
+	SUntilCtx   = 4 // sends n values, then waits for ctx.Done, then closes
+	SInfinite   = 5 // sends until ctx done
 	SNeverClose = 6 // sends n values, never closes (until ctx done, then just returns without closing)
 )
 
@@ -358,12 +370,12 @@ func (s *Svc) Sub(ctx context.Context, tok string, n int, mode int) (<-chan Item
 
 // RevAPI is the reverse-client proxy struct the server uses to call back.
 type RevAPI struct {
-	Ident   func(ctx context.Context, tok string) (string, error)
-	IdentA  func(ctx context.Context, tok string) (string, error) `rpc_method:"R.AliasIdent"`
-	IdentT  func(ctx context.Context, tok string) (string, error) `rpc_method:"R.Ident"`
-	RFail   func(ctx context.Context, tok string) (string, error)
-	RHold   func(ctx context.Context, tok string) (string, error)
-	RBoom   func(ctx context.Context, tok string, kind int) (string, error)
+	Ident  func(ctx context.Context, tok string) (string, error)
+	IdentA func(ctx context.Context, tok string) (string, error) `rpc_method:"R.AliasIdent"`
+	IdentT func(ctx context.Context, tok string) (string, error) `rpc_method:"R.Ident"`
+	RFail  func(ctx context.Context, tok string) (string, error)
+	RHold  func(ctx context.Context, tok string) (string, error)
+	RBoom  func(ctx context.Context, tok string, kind int) (string, error)
 }
 
 // Rev calls back k times into the client that issued this call.
@@ -409,25 +421,26 @@ func (s *Svc) Rev(ctx context.Context, tok string, k int, which int) (string, er
 // ---- client-side proxy struct ----------------------------------------------
 
 type Client struct {
-	Echo     func(ctx context.Context, tok string, pad string) (string, error)
-	EchoR    func(ctx context.Context, tok string, pad string) (string, error) `retry:"true" rpc_method:"S.Echo"`
-	HoldHard func(ctx context.Context, tok string, pad string) (string, error)
-	Big      func(ctx context.Context, tok string, n int) (string, error)
-	BigR     func(ctx context.Context, tok string, n int) (string, error) `retry:"true" rpc_method:"S.Big"`
-	Fail     func(ctx context.Context, tok string) (string, error)
-	Void     func(ctx context.Context, tok string)
-	Note     func(ctx context.Context, tok string) error `notify:"true"`
-	Boom     func(ctx context.Context, tok string, kind int) (string, error)
-	BoomNote func(ctx context.Context, tok string, kind int) error `notify:"true"`
-	BoomSub  func(ctx context.Context, tok string, kind int) (<-chan Item, error)
-	Sub      func(ctx context.Context, tok string, n int, mode int) (<-chan Item, error)
-	Rev      func(ctx context.Context, tok string, k int, which int) (string, error)
-	React    func(ctx context.Context, tok string, delayMs int, size int) (string, error)
-	ReactN   func(ctx context.Context, tok string, delayMs int) error `notify:"true"`
-	SubInt   func(ctx context.Context, tok string, n int, mode int) (<-chan int, error)
-	SubStr   func(ctx context.Context, tok string, n int, mode int) (<-chan string, error)
-	SubBytes func(ctx context.Context, tok string, n int, mode int) (<-chan []byte, error)
-	SubPtr   func(ctx context.Context, tok string, n int, mode int) (<-chan *Item, error)
+	Echo            func(ctx context.Context, tok string, pad string) (string, error)
+	EchoR           func(ctx context.Context, tok string, pad string) (string, error) `retry:"true" rpc_method:"S.Echo"`
+	HoldHard        func(ctx context.Context, tok string, pad string) (string, error)
+	Big             func(ctx context.Context, tok string, n int) (string, error)
+	BigR            func(ctx context.Context, tok string, n int) (string, error) `retry:"true" rpc_method:"S.Big"`
+	Fail            func(ctx context.Context, tok string) (string, error)
+	Void            func(ctx context.Context, tok string)
+	Note            func(ctx context.Context, tok string) error `notify:"true"`
+	Boom            func(ctx context.Context, tok string, kind int) (string, error)
+	BoomNote        func(ctx context.Context, tok string, kind int) error `notify:"true"`
+	BoomAfterCancel func(ctx context.Context, tok string, kind int) (string, error)
+	BoomSub         func(ctx context.Context, tok string, kind int) (<-chan Item, error)
+	Sub             func(ctx context.Context, tok string, n int, mode int) (<-chan Item, error)
+	Rev             func(ctx context.Context, tok string, k int, which int) (string, error)
+	React           func(ctx context.Context, tok string, delayMs int, size int) (string, error)
+	ReactN          func(ctx context.Context, tok string, delayMs int) error `notify:"true"`
+	SubInt          func(ctx context.Context, tok string, n int, mode int) (<-chan int, error)
+	SubStr          func(ctx context.Context, tok string, n int, mode int) (<-chan string, error)
+	SubBytes        func(ctx context.Context, tok string, n int, mode int) (<-chan []byte, error)
+	SubPtr          func(ctx context.Context, tok string, n int, mode int) (<-chan *Item, error)
 }
 
 // RevHandler is the client-side handler object for reverse calls.
